@@ -7,7 +7,7 @@ import os, re
 from engine import facts, mutate
 from engine.facts import kids, walk, strip, is_call, call_args, call_obj, expr_key
 from engine.report import Report
-from props import C02, C28
+from props import C02, C28, comparators
 from props.parallel_guard import guarded_by
 
 LIMIT = re.compile(r'^(MIN|MAX)_RAM_(SIGNED|UNSIGNED|FLOAT)$')
@@ -95,6 +95,9 @@ def analyse(rep):
     # R4: eqrel closure clauses shared with C28 (cache staleness, lock pairing)
     u, = facts.extract([(C28.TU, r'datastructure/(EquivalenceRelation|PiggyList)\.h$', r'EquivalenceRelation|PiggyList')])
     C28.analyse_eqrel(rep, u)
+    # R5: every element comparator is a sign function of the (signed, lexicographic) order -- all orderings decided
+    uc, = facts.extract([comparators.JOB])
+    rep.floor('R5-comparator-classes', comparators.rule_comparators(rep, uc, r'comparator|Comparator', 'R5-comparator-order'), 6)
 
 
 def run(tier='quick'):
